@@ -65,9 +65,14 @@ class Node:
             yield from k.walk()
 
 
+class Tagged(str):
+    """a comment text whose identity is kept, so that the line it is rendered on can be looked up"""
+
+
 class Program:
     def __init__(self, subs):
         self.subs = subs
+        self.cline = {}
 
     def nodes(self):
         for s in self.subs:
@@ -86,6 +91,7 @@ class Program:
     def render(self):
         """source text; sets node.line (1-based) for every node that owns a line"""
         out = []
+        self.cline = {}
 
         def emit(s):
             out.append(s)
@@ -93,13 +99,15 @@ class Program:
 
         def comments(cs, ind):
             for c in cs:
-                emit(ind + c)
+                self.cline[id(c)] = emit(ind + c)
 
         def stmts(lst, ind):
             for s in lst:
                 comments(s.lead, ind)
                 if s.kind == "simple":
                     s.line = emit(ind + s.text + "".join(" " + c for c in s.trail))
+                    for c in s.trail:
+                        self.cline[id(c)] = s.line
                 elif s.kind == "if":
                     s.line = emit(ind + "if (" + s.text + ") {")
                     block(s.kids[0], ind)
